@@ -17,6 +17,6 @@ cd $VC
 if [ -n "$ONLY" ]; then VERIF_REPO=$WT ./check $P --tier $T --only $ONLY --no-evidence; else VERIF_REPO=$WT ./check $P --tier $T --no-evidence; fi
 RC=$?
 mkdir -p /verif/.cache/seedruns/$TAG; cp -a $VC/replays /verif/.cache/seedruns/$TAG/ 2>/dev/null
-git -C /repo worktree remove --force $WT; rm -rf /tmp/seedrun/$TAG
+mkdir -p /verif/.cache/seedruns/$TAG/logs; cp $VC/.cache/*.log /verif/.cache/seedruns/$TAG/logs/ 2>/dev/null; git -C /repo worktree remove --force $WT; rm -rf /tmp/seedrun/$TAG
 echo "SEEDTEST seed=$SD prop=$P tier=$T exit=$RC"
 exit $RC
